@@ -79,6 +79,17 @@ class SpecProbe(EventABC):
         rn.RUN.emit("hook:market-after", None, (market, market.get_time()))
 
 
+class InheritingProbe(SpecProbe):
+    """user event two levels below EventABC: every handler is inherited from its parent class."""
+
+
+class IdleEvent(EventABC):
+    """user event without hooks (listed in another session than the probe)."""
+
+    def hook_registration(self):
+        return []
+
+
 HOOK_KINDS = [("order", True), ("order", False), ("cancel", True), ("cancel", False), ("execution", False),
               ("session", True), ("session", False), ("market", True), ("market", False)]
 
@@ -131,6 +142,10 @@ class HookDispatch(Harness):
             out.append({"hooks": [{"type": "market", "before": before, "n": None, "filter": "inst:IDX"},
                                   {"type": "market", "before": before, "n": 1, "filter": "class:IndexMarket"},
                                   {"type": "market", "before": before, "n": None, "filter": "inst:M0"}], "where": 0})
+        # the probe's class inherits all its handlers; another event is listed in the other session
+        for typ, before in HOOK_KINDS:
+            out.append({"hooks": [{"type": typ, "before": before, "n": None, "filter": None}], "where": 0, "inherit": True})
+            out.append({"hooks": [{"type": typ, "before": before, "n": 1, "filter": None}], "where": 0, "other_session": True})
         if tier == "thorough":
             for typ, before in HOOK_KINDS:
                 out.append({"hooks": [{"type": typ, "before": before, "n": 2, "filter": None}], "where": 1})
@@ -153,7 +168,11 @@ class HookDispatch(Harness):
                    "IDX": {"class": "IndexMarket", "tickSize": 1, "marketPrice": 300, "markets": ["M0"]}}
         sessions = [rn.session(0, 2, True, True, maxNormalOrders=2), rn.session(1, 1, True, True, maxNormalOrders=2)]
         sessions[case["where"]]["events"] = ["EV"]
-        st = rn.base_settings(n_agents=2, sessions=sessions, markets=markets, extra={"EV": {"class": "SpecProbe"}})
+        extra = {"EV": {"class": "InheritingProbe" if case.get("inherit") else "SpecProbe"}}
+        if case.get("other_session"):
+            sessions[1 - case["where"]]["events"] = ["IDLE"]
+            extra["IDLE"] = {"class": "IdleEvent"}
+        st = rn.base_settings(n_agents=2, sessions=sessions, markets=markets, extra=extra)
         st["A"]["markets"] = ["M0"]
         # agent 0 buys at 310, agent 1 sells at 290 (always crossing), one of them may cancel instead
         # agent 0 buys at t=0 and buys again or cancels at t=1, and sells at t=2 (crossing its own resting bid
@@ -163,7 +182,7 @@ class HookDispatch(Harness):
                                                            "1": {"side": "S", "active": [1, 2]}},
                 "vol_fixed": 1, "price_fixed": 300, "hooks": hooks, "rewrite": case.get("rewrite"),
                 "acts_by_time": {"0": ["limit"], "1": ["limit", "cancel"], "2": ["limit"]}}
-        ctx = rn.make_run(g, st, menu, classes=(SpecProbe,))
+        ctx = rn.make_run(g, st, menu, classes=(SpecProbe, InheritingProbe, IdleEvent))
         ctx.rewritten = {}
         ctx.runner._run()
         self.oracle(g, ctx, hooks, case)
@@ -609,6 +628,14 @@ class LimitRuleFn(Harness):
             g.note("nontrivial")
 
 
+class AuditedRule(PriceLimitRule):
+    """user class derived from the built-in rule; overrides nothing that matters (inherits hooked_before_order)."""
+
+    def setup(self, settings, *args, **kwargs):
+        super().setup(settings, *args, **kwargs)
+        self.audited = True
+
+
 class LimitRuleRun(Harness):
     name = "LimitRuleRun"
     title = "PriceLimitRule in a real run with target and non-target markets"
@@ -641,6 +668,8 @@ class LimitRuleRun(Harness):
         out.append({"targets": ["M0"], "targets2": ["M1"], "where": 0, "n1": 1, "active": [1, 1], "acts": ["limit"]})
         out.append({"targets": ["M1"], "targets2": ["M0"], "where": 1, "n1": 1, "active": [1, 1], "acts": ["limit"]})
         out.append({"targets": ["M0"], "where": 0, "n1": 1, "active": [1, 1], "acts": ["limit", "market"]})
+        # a user class derived from the rule that inherits its order hook
+        out.append({"targets": ["M0"], "where": 0, "n1": 1, "active": [1, 1], "acts": ["limit"], "subclass": True})
         out.append({"targets": ["M0"], "where": 0, "n1": 1, "active": [0, 1], "acts": ["limit"], "only_m0": True})
         if tier == "thorough":
             out.append({"targets": ["M0"], "where": 0, "n1": 2, "active": [1, 2], "acts": ["limit"]})
@@ -655,7 +684,8 @@ class LimitRuleRun(Harness):
             sessions[0]["events"] = ["RULE", "PROBE"]      # the rule is not the last configured event
         else:
             sessions[case["where"]].setdefault("events", []).append("RULE")
-        extra = {"RULE": {"class": "PriceLimitRule", "targetMarkets": case["targets"], "triggerChangeRate": 0.5},
+        extra = {"RULE": {"class": "AuditedRule" if case.get("subclass") else "PriceLimitRule",
+                          "targetMarkets": case["targets"], "triggerChangeRate": 0.5},
                  "PROBE": {"class": "ProbeAll"}}
         if case.get("targets2"):
             sessions[case["where"]]["events"].append("RULE2")
@@ -684,7 +714,7 @@ class LimitRuleRun(Harness):
                 "price_hi": 1000, "vol_fixed": 1, "active_from": case["active"][0], "active_until": case["active"][1]}
         if case.get("only_m0"):
             st["A"]["markets"] = ["M0"]
-        ctx = rn.make_run(g, st, menu, on_event=on_event)
+        ctx = rn.make_run(g, st, menu, classes=(AuditedRule,), on_event=on_event)
         sim = ctx.sim
         # with orders in step 0 the reference price itself is a solver term: the rate is then a concrete number
         # so that the band stays linear in the solver variables
